@@ -130,7 +130,7 @@ def convert(raw, pal, var, i):
         step = {"op": op, "want": st["want"]}
         # variant (every third scenario): the event that stops an instance arrives while a sync of that instance is IN
         # FLIGHT (its hook call is being answered); the driver lets the answer go once the reconciler is waiting
-        if i % 3 == 0 and k > 0 and op["t"] in ("delete", "update"):
+        if i % 2 == 0 and k > 0 and op["t"] in ("delete", "update"):
             step["inflight"] = True
         steps.append(step)
     return {"fam": "lifecycle", "kind": raw["kind"], "nn": raw["nn"], "specs": specs, "steps": steps}
